@@ -98,7 +98,8 @@ def vcs(B):
         if hasattr(c, 'container') and hasattr(c, 'key'):
             return c.container[c.key]
         return c
-    B.overrides['LeastSquares_double__setPreconditionner'] = lambda args: (given.append(val(args[1])), '0')[1]
+    pcs = []
+    B.overrides['LeastSquares_double__setPreconditionner'] = lambda args: (given.append(val(args[1])), pcs.append(getattr(B, 'override_pc', 'true')), '0')[2]
     names = [f for f in B.prog.cname_of_id.values() if 'setPreconditionner' in f]
     for nm in names:
         B.overrides[nm] = B.overrides['LeastSquares_double__setPreconditionner']
@@ -107,7 +108,7 @@ def vcs(B):
     obl = B.take_obligations()
     fl = ['P2P3__setPreconditioner']
     nz = [app('not', app('=', scale, '0.0'))]
-    B.vc('setPreconditioner.solver_preconditioner_is_set_exactly_once_whatever_the_scale', app('=', str(len(given)), '1'), functions=fl, bounded=BOUND)
+    B.vc('setPreconditioner.solver_preconditioner_is_set_exactly_once_whatever_the_scale', land(app('=', str(len(given)), '1'), pcs[0] if pcs else 'false'), nz, functions=fl, bounded=BOUND)
     if given:
         Acv = given[0]
         for i in range(6):
